@@ -471,6 +471,10 @@ func (s *Sched) valLabel(v interface{}) string {
 // Go starts f as a new controlled thread; the child id is parent id + spawn ordinal.
 func Go(f func()) {
 	s := Cur
+	if s == nil {
+		go f()
+		return
+	}
 	t := s.me()
 	t.pending = &Op{kind: opSpawn}
 	s.reschedule(t, false)
